@@ -199,7 +199,49 @@ pub struct Txt {
     at: Point,
     s: String,
 }
+impl Txt {
+    fn char_style<C: TC>(&self) -> embedded_graphics::mono_font::MonoTextStyle<'static, C> {
+        let t = self;
+        let font: &'static MonoFont = match t.font {
+            0 => &ascii::FONT_6X10,
+            1 => &ascii::FONT_4X6,
+            2 => &SPACED_6X10,
+            3 => &SPACED_4X6,
+            4 => &iso_8859_1::FONT_9X15,
+            _ => &ascii::FONT_10X20,
+        };
+        let mut b = MonoTextStyleBuilder::<C>::new().font(font);
+        if let Some(c) = t.text_color {
+            b = b.text_color(col::<C>(c));
+        }
+        if let Some(c) = t.bg {
+            b = b.background_color(col::<C>(c));
+        }
+        b = match t.underline {
+            0 => b,
+            1 => b.underline(),
+            c => b.underline_with_color(col::<C>(c)),
+        };
+        b = match t.strike {
+            0 => b,
+            1 => b.strikethrough(),
+            c => b.strikethrough_with_color(col::<C>(c)),
+        };
+        b.build()
+    }
+    fn base(&self) -> Baseline {
+        match self.baseline {
+            0 => Baseline::Top,
+            1 => Baseline::Bottom,
+            2 => Baseline::Middle,
+            _ => Baseline::Alphabetic,
+        }
+    }
+}
 pub enum Job {
+    /// the TextRenderer API used directly (as layout crates do): mode 0 draw_string, 1 draw_whitespace(width),
+    /// 2 draw_string; draw_whitespace; draw_string with `?` between them
+    Rend(Txt, u32, u32),
     Rect(Rectangle, Style),
     Circle(Point, u32, Style),
     Ellipse(Rectangle, Style),
@@ -271,6 +313,13 @@ pub fn parse_job(a: &[&str]) -> Option<Job> {
             at: pt(a[9], a[10]),
             s: unhex(a[11]),
         }),
+        "rend" => {
+            let t = match parse_job(&[&["text"], &a[3..]].concat())? {
+                Job::Text(t) => t,
+                _ => return None,
+            };
+            Job::Rend(t, u(a[1]), u(a[2]))
+        }
         "pixels" => {
             let mode = u(a[1]);
             let n = us(a[2]);
@@ -310,31 +359,7 @@ impl Job {
             }
             Job::Image(im) => unit(C::image(im, d)),
             Job::Text(t) => {
-                let font: &MonoFont = match t.font {
-                    0 => &ascii::FONT_6X10,
-                    1 => &ascii::FONT_4X6,
-                    2 => &SPACED_6X10,
-                    3 => &SPACED_4X6,
-                    4 => &iso_8859_1::FONT_9X15,
-                    _ => &ascii::FONT_10X20,
-                };
-                let mut b = MonoTextStyleBuilder::<C>::new().font(font);
-                if let Some(c) = t.text_color {
-                    b = b.text_color(col::<C>(c));
-                }
-                if let Some(c) = t.bg {
-                    b = b.background_color(col::<C>(c));
-                }
-                b = match t.underline {
-                    0 => b,
-                    1 => b.underline(),
-                    c => b.underline_with_color(col::<C>(c)),
-                };
-                b = match t.strike {
-                    0 => b,
-                    1 => b.strikethrough(),
-                    c => b.strikethrough_with_color(col::<C>(c)),
-                };
+                let cs = t.char_style::<C>();
                 let mut ts = TextStyleBuilder::new()
                     .alignment(match t.align {
                         0 => Alignment::Left,
@@ -352,7 +377,21 @@ impl Job {
                 } else if t.line_height < 0 {
                     ts = ts.line_height(LineHeight::Percent((-t.line_height) as u32));
                 }
-                Text::with_text_style(&t.s, t.at, b.build(), ts.build()).draw(d).map(|p| format!("{:?}", p))
+                Text::with_text_style(&t.s, t.at, cs, ts.build()).draw(d).map(|p| format!("{:?}", p))
+            }
+            Job::Rend(t, mode, width) => {
+                use embedded_graphics::text::renderer::TextRenderer;
+                let cs = t.char_style::<C>();
+                let p = match mode {
+                    0 => cs.draw_string(&t.s, t.at, t.base(), d)?,
+                    1 => cs.draw_whitespace(*width, t.at, t.base(), d)?,
+                    _ => {
+                        let p1 = cs.draw_string(&t.s, t.at, t.base(), d)?;
+                        let p2 = cs.draw_whitespace(*width, p1, t.base(), d)?;
+                        cs.draw_string(&t.s, p2, t.base(), d)?
+                    }
+                };
+                Ok(format!("{:?}", p))
             }
             Job::Pixels(v, mode) => {
                 let it = v.iter().map(|(p, c)| Pixel(*p, col::<C>(*c)));
